@@ -482,9 +482,13 @@ impl Literal {
                 }
                 bits
             }
-            Literal::Struct(_, fields) => {
+            Literal::Struct(struct_name, fields) => {
                 let mut bits = vec![];
-                for (_, f) in fields {
+                // the fields are laid out in the order of the struct definition, whatever their
+                // order in the literal:
+                let struct_def = checked.struct_defs.get(struct_name).unwrap();
+                for (field_name, _) in struct_def.fields.iter() {
+                    let (_, f) = fields.iter().find(|(name, _)| name == field_name).unwrap();
                     bits.extend(f.as_bits(checked, const_sizes))
                 }
                 bits
